@@ -511,7 +511,7 @@ func TestC01(t *testing.T) {
 		for i := 0; i < k; i++ {
 			conf, labels := gen.Valid(rt, opts)
 			m := c01Member{
-				Style:  cfg.Style{Seed: rapid.Uint64().Draw(rt, "styleseed"), PermKeys: rapid.Bool().Draw(rt, "perm"), Flow: rapid.Bool().Draw(rt, "flow"), Quotes: rapid.Bool().Draw(rt, "quotes")},
+				Style:  cfg.Style{Seed: rapid.Uint64().Draw(rt, "styleseed"), PermKeys: rapid.Bool().Draw(rt, "perm"), Flow: rapid.Bool().Draw(rt, "flow"), Quotes: rapid.Bool().Draw(rt, "quotes"), Blocks: rapid.Bool().Draw(rt, "blocks")},
 				Stub:   rapid.IntRange(0, 3).Draw(rt, "stub") == 0,
 				Labels: labels.List(),
 			}
